@@ -21,6 +21,9 @@ EXTENDS Integers, Sequences, FiniteSets, TLC
 
 CONSTANTS Kinds,           \* function caller -> kind in {"open","meta","closeUp","read","closeDown","openDown"}
           LeakRLock, CloseWaitWakes, MuHeldDuringWait, ResultChBuffered,
+          WakeUnderLock,   \* TRUE as coded: the goroutine that wakes Close's wait when a bound fires broadcasts while holding the condition
+                           \* variable's lock, so it cannot fall between Close's look at its bounds and its Wait; FALSE = a lock-free
+                           \* Broadcast (e.g. context.AfterFunc(ctx, cond.Broadcast)): a bound that fires in that gap wakes nobody
           Hooks,           \* TRUE: the flush loop cuts a chunk and the user's send hook runs (only the configurations about Upstream.mu need it)
           HookUnderLock,   \* FALSE: as coded, user hooks are queued to the stream's event dispatcher and run with no library lock held;
                            \* TRUE: the send hook is called from the flush critical section (Upstream.mu held)
@@ -52,7 +55,7 @@ Init == /\ pc = [p \in Callers |-> "idle"] /\ expired = [p \in Callers |-> FALSE
 NeedsMu(p) == Kinds[p] \in {"open", "meta", "openDown"}
 
 Call(p) == /\ pc[p] = "idle"
-           /\ pc' = [pc EXCEPT ![p] = CASE NeedsMu(p) -> "wantMu" [] Kinds[p] = "closeUp" -> "ackWait"
+           /\ pc' = [pc EXCEPT ![p] = CASE NeedsMu(p) -> "wantMu" [] Kinds[p] = "closeUp" -> "ackLook"
                                           [] Kinds[p] \in {"write", "state"} -> "wantUmu" [] OTHER -> "wait"]
            /\ UNCHANGED <<expired, overrun, mu, rlocks, dsw, resp, nmeta, acked, ust>>
 
@@ -81,9 +84,20 @@ WaitReturns(p) ==
 \* upstream Close: wait for all acks on the condition variable
 AckArrives == /\ ~acked /\ acked' = TRUE /\ UNCHANGED <<pc, expired, overrun, mu, rlocks, dsw, resp, nmeta, ust>>
 AckWaitReturns(p) ==
-    /\ pc[p] = "ackWait"
-    /\ acked \/ (CloseWaitWakes /\ expired[p])
+    /\ pc[p] \in {"ackWait", "ackWaitLost"}
+    /\ acked \/ (pc[p] = "ackWait" /\ CloseWaitWakes /\ expired[p])
     /\ pc' = [pc EXCEPT ![p] = "wait"]
+    /\ UNCHANGED <<expired, overrun, mu, rlocks, dsw, resp, nmeta, acked, ust>>
+\* Close looks at the sent storage and at its bounds (under the condition variable's lock) ...
+AckLook(p) ==
+    /\ pc[p] = "ackLook"
+    /\ pc' = [pc EXCEPT ![p] = IF acked \/ (CloseWaitWakes /\ expired[p]) THEN "wait" ELSE "ackGap"]
+    /\ UNCHANGED <<expired, overrun, mu, rlocks, dsw, resp, nmeta, acked, ust>>
+\* ... and parks in Wait(). A bound that fired in between: with the broadcast under the lock it is delivered after the parking (the
+\* broadcaster had to wait for the lock), with a lock-free broadcast it went to nobody
+AckPark(p) ==
+    /\ pc[p] = "ackGap"
+    /\ pc' = [pc EXCEPT ![p] = IF expired[p] /\ ~WakeUnderLock THEN "ackWaitLost" ELSE "ackWait"]
     /\ UNCHANGED <<expired, overrun, mu, rlocks, dsw, resp, nmeta, acked, ust>>
 
 \* sync.RWMutex.Lock: waits for readers and writers, not context-aware
@@ -136,13 +150,13 @@ Expire(p) == /\ pc[p] \notin {"idle", "done"} /\ ~expired[p]
              /\ overrun' = [overrun EXCEPT ![p] = Blind(p)]
              /\ UNCHANGED <<pc, mu, rlocks, dsw, resp, nmeta, acked, ust>>
 
-Next == \/ \E p \in Callers : Call(p) \/ TakeMu(p) \/ WaitReturns(p) \/ AckWaitReturns(p) \/ TakeDsMu(p) \/ Expire(p) \/ TakeUmu(p)
+Next == \/ \E p \in Callers : Call(p) \/ TakeMu(p) \/ WaitReturns(p) \/ AckWaitReturns(p) \/ AckLook(p) \/ AckPark(p) \/ TakeDsMu(p) \/ Expire(p) \/ TakeUmu(p)
         \/ WaiterGivesUp \/ ResultArrives \/ HandOver \/ FlushCut \/ HookStarts \/ HookCallsState
         \/ \E p \in Callers, a \in Adversary : Decide(p, a)
         \/ AckArrives \/ \E k \in BOOLEAN : Meta(k)
 
 \* fairness: the library's own steps and the timers are fair; the adversary (Decide, AckArrives, Meta) is not
-Fair == /\ \A p \in Callers : WF_vars(TakeMu(p)) /\ WF_vars(WaitReturns(p)) /\ WF_vars(AckWaitReturns(p)) /\ WF_vars(TakeDsMu(p)) /\ WF_vars(Expire(p))
+Fair == /\ \A p \in Callers : WF_vars(TakeMu(p)) /\ WF_vars(WaitReturns(p)) /\ WF_vars(AckWaitReturns(p)) /\ WF_vars(AckLook(p)) /\ WF_vars(AckPark(p)) /\ WF_vars(TakeDsMu(p)) /\ WF_vars(Expire(p))
                                /\ WF_vars(TakeUmu(p))
         /\ WF_vars(HandOver) /\ WF_vars(HookStarts) /\ WF_vars(HookCallsState)
 Spec == Init /\ [][Next]_vars /\ Fair
@@ -154,6 +168,8 @@ EveryCallReturns == \A p \in Callers : (pc[p] # "idle") ~> (pc[p] = "done")
 NoOverrun == \A p \in Callers : ~overrun[p]
 \* no input sequence leaves the client holding a lock it never releases
 NoLockLeak == (\A p \in Callers : pc[p] \in {"idle", "done"}) => (mu = "none" /\ rlocks = 0 /\ dsw = "none")
+\* the wake-up of a bound is never lost between Close's look and its Wait
+NoLostWakeup == \A p \in Callers : pc[p] # "ackWaitLost"
 \* a user callback never runs inside a library critical section it needs itself
 NoHookUnderLock == ~(hook = "running" /\ umu = "flush")
 \* the result loop never sits on the stream lock waiting for a sender that has gone
